@@ -7,7 +7,9 @@ CLAIMED = {
  "C02": ("trace validation against Frame!Accepts (TLC): DF x length grid, type-31 gate grid, trailing garbage, truncations", "7/C02"),
  "C03": ("trace validation against Crc!Checksum (bitwise polynomial division in TLA+, TLC): table read-out sweeps, random frames, corruptions", "7/C03"),
  "C04": ("trace validation against Frame!Expect header/address fields (TLC): field sweeps x payload types, walking-one", "7/C04"),
+ "C05": ("trace validation against CPR!GlobalDecode (exact-integer CPR in TLA+, TLC): encoded true positions, displacements, poles/equator/antimeridian/NL transitions, raw and boundary quadruples; exhaustive NL walk over all reachable latitudes with change points judged by TLC", "7/C05"),
  "C06": ("exhaustive trace validation against ModeAC!AC13/AC12 (TLC): all codes in all carriers", "7/C06"),
+ "C07": ("trace validation against Frame!VelocityFields and Velocity!CalcDiff (fixed-point trig in TLA+, TLC): all raw codes, derived velocity lattice (thorough: all 2^22 combinations)", "7/C07"),
  "C08": ("trace validation against Frame!Chars8/CallsignOK (TLC): every code at every position, pairs, padding", "7/C08"),
  "C09": ("exhaustive trace validation against ModeAC!Identity (TLC): all codes in three carriers", "7/C09"),
  "C10": ("trace validation against Frame!MEFields/MBFields (TLC): field sweeps under DF17/18/20/21, dispatch grid", "7/C10"),
